@@ -18,6 +18,7 @@ namespace ephemeralnet::test {
 class NodeTestAccess {
 public:
     static auto& sessions(Node& n) { return n.sessions_; }
+    static auto& mtx(Node& n) { return n.scheduler_mutex_; }
     static std::optional<std::uint64_t> work(Node& n, const PeerId& p) { return n.generate_handshake_work(p); }
 };
 }
@@ -95,6 +96,28 @@ struct Driver {
             for (int i = 0; i < 300; ++i) { if (Acc::sessions(y).is_connected(x.id()) && Acc::sessions(x).is_connected(y.id())) break; usleep(1000); }
             usleep(3000);
             ev::Ev e("rehs"); e.s("from", c.s("from")).b("hs", hs).b("con", con); fin(e);
+        } else if (c.op == "tickrace") {
+            // a tick of end n is in flight (it has taken its "now" and waits for the node's scheduler lock, as it does behind a control
+            // request or a receive thread) while the other end handshakes again and reconnects, adv ms later; then the tick goes on.
+            // The key material registered meanwhile is younger than the tick's "now": no rotation is due
+            Node& x = c.s("n") == "a" ? *a : *b;     // the ticking end
+            Node& y = c.s("n") == "a" ? *b : *a;     // the end that handshakes again
+            const long long tbase = now_ms();
+            bool hs = false, con = false;
+            std::thread ticker;
+            {
+                std::unique_lock lk(Acc::mtx(x));
+                ticker = std::thread([&] { x.tick(); });
+                usleep(120000);     // the tick has read the clock and waits for the lock
+                vclock::advance_ms(c.i("adv", 50));
+                auto w = Acc::work(x, y.id());
+                hs = y.perform_handshake(x.id(), x.public_identity(), w.value_or(0));
+                con = hs && y.connect_peer(x.id(), "127.0.0.1", x.transport_port());
+                for (int i = 0; i < 300; ++i) { if (Acc::sessions(x).is_connected(y.id()) && Acc::sessions(y).is_connected(x.id())) break; usleep(1000); }
+                usleep(3000);
+            }
+            ticker.join();
+            ev::Ev e("tickrace"); e.s("n", c.s("n")).i("tbase", tbase).b("hs", hs).b("con", con); fin(e);
         } else if (c.op == "intrude") {
             // somebody else offers node n a handshake under the PEER's id: a valid but different public value and work that does not
             // verify.  It is refused (C20); the key of the open session must stay what both ends agreed on
